@@ -12,7 +12,8 @@ pub struct C18;
 
 #[derive(Clone, Debug, Serialize, Deserialize)]
 pub struct Inst {
-    /// template: 0 rect, 1 circle, 2 group, 3 symbol, 4 nested group, 5 inline rect (rendered itself too)
+    /// template: 0 rect, 1 circle, 2 group, 3 symbol, 4 nested group, 5 inline rect (rendered itself too);
+    /// fixed-size ones: 6 rect, 7 circle, 8 ellipse, 9 group (all in specs), 10 group in <defs>
     pub tpl: u8,
     pub w: f64,
     pub h: f64,
@@ -22,6 +23,12 @@ pub struct Inst {
     pub xy: Option<(f64, f64)>,
     pub style: Option<String>,
     pub class: Option<String>,
+    /// a transform attribute on the reuse element
+    #[serde(default)]
+    pub xf: Option<String>,
+    /// placed relative to the anchor rect #base instead of by x / y (fixed-size shape templates only): (direction, gap)
+    #[serde(default)]
+    pub rel: Option<(u8, f64)>,
 }
 
 #[derive(Clone, Debug, Serialize, Deserialize)]
@@ -36,18 +43,24 @@ pub struct Case {
 const LABELS: [&str; 6] = ["hi", "A & B", "two words", "x<y", "7", "Zed"];
 const CLASSES: [&str; 5] = ["d-red", "thin", "d-fill-blue", "k1 k2", "d-dash"];
 
+const XFS: [&str; 4] = ["rotate(30)", "scale(2)", "translate(3, -1) rotate(-90)", "skewX(10)"];
+const DIRS: [&str; 4] = ["h", "H", "v", "V"];
+
 fn inst() -> impl Strategy<Value = Inst> {
-    (0u8..6, crate::gen::nice_pos(12), crate::gen::nice_pos(8), 0..LABELS.len(), 0..CLASSES.len(), any::<bool>(), prop::option::of((crate::gen::nice(40), crate::gen::nice(40))), any::<u8>()).prop_map(|(tpl, w, h, l, c, id, xy, m)| Inst {
-        tpl,
-        w: w.max(1.0),
-        h: h.max(1.0),
-        label: LABELS[l].to_string(),
-        cls: CLASSES[c].split(' ').next().unwrap().to_string(),
-        id,
-        xy,
-        style: if m & 1 != 0 { Some("stroke: green; opacity: 0.5".to_string()) } else { None },
-        class: if m & 2 != 0 { Some(CLASSES[(m >> 2) as usize % CLASSES.len()].to_string()) } else { None },
-    })
+    (0u8..11, crate::gen::nice_pos(12), crate::gen::nice_pos(8), 0..LABELS.len(), 0..CLASSES.len(), any::<bool>(), prop::option::of((crate::gen::nice(40), crate::gen::nice(40))), any::<u8>(), any::<u8>(), crate::gen::nice_pos(6))
+        .prop_map(|(tpl, w, h, l, c, id, xy, m, m2, gap)| Inst {
+            tpl,
+            w: w.max(1.0),
+            h: h.max(1.0),
+            label: LABELS[l].to_string(),
+            cls: CLASSES[c].split(' ').next().unwrap().to_string(),
+            id,
+            xy,
+            style: if m & 1 != 0 { Some("stroke: green; opacity: 0.5".to_string()) } else { None },
+            class: if m & 2 != 0 { Some(CLASSES[(m >> 2) as usize % CLASSES.len()].to_string()) } else { None },
+            xf: if m2 % 3 == 0 { Some(XFS[(m2 / 3) as usize % XFS.len()].to_string()) } else { None },
+            rel: if matches!(tpl, 6..=8) && m2 % 2 == 1 { Some(((m2 / 2) % 4, gap)) } else { None },
+        })
 }
 
 fn fam_docs(_t: Tier) -> BoxedStrategy<Case> {
@@ -70,12 +83,25 @@ fn templates() -> XEl {
         )
 }
 
+/// fixed-size templates (no variables): these have a size before instantiation, so instances can also be placed relatively
+fn fixed_templates(t: XEl) -> XEl {
+    t.kid(XEl::new("rect").a("id", "fr").a("wh", "4 2"))
+        .kid(XEl::new("circle").a("id", "fc").a("r", "2"))
+        .kid(XEl::new("ellipse").a("id", "fe").a("rx", "3").a("ry", "1"))
+        .kid(XEl::new("g").a("id", "fg").kid(XEl::new("rect").a("wh", "6 2")).kid(XEl::new("circle").a("cx", "6").a("cy", "1").a("r", "1")))
+}
+
+/// a group with fixed geometry in <defs> (emitted as it is, and laid out before any instance is made)
+fn defs_template() -> XEl {
+    XEl::new("defs").kid(XEl::new("g").a("id", "tf").kid(XEl::new("rect").a("width", "6").a("height", "2")).kid(XEl::new("circle").a("cx", "6").a("cy", "1").a("r", "1")))
+}
+
 fn inline_template() -> Vec<XEl> {
     vec![XEl::new("var").a("w", "4").a("h", "2").a("label", "dflt"), XEl::new("rect").a("id", "ti").a("xy", "0 0").a("wh", "$w $h").a("text", "$label").a("class", "inl")]
 }
 
 fn tpl_id(t: u8) -> &'static str {
-    ["tr", "tc", "tg", "ts", "tn", "ti"][t as usize % 6]
+    ["tr", "tc", "tg", "ts", "tn", "ti", "fr", "fc", "fe", "fg", "tf"][t as usize % 11]
 }
 
 fn reuse_xml(k: usize, i: &Inst) -> XEl {
@@ -88,7 +114,9 @@ fn reuse_xml(k: usize, i: &Inst) -> XEl {
     r.set("h", num(i.h));
     r.set("label", i.label.clone());
     r.set("cls", i.cls.clone());
-    if let Some((x, y)) = i.xy {
+    if let Some((d, gap)) = i.rel {
+        r.set("xy", format!("#base|{} {}", DIRS[d as usize % 4], num(gap)));
+    } else if let Some((x, y)) = i.xy {
         r.set("x", num(x));
         r.set("y", num(y));
     }
@@ -97,6 +125,9 @@ fn reuse_xml(k: usize, i: &Inst) -> XEl {
     }
     if let Some(c) = &i.class {
         r.set("class", c.clone());
+    }
+    if let Some(t) = &i.xf {
+        r.set("transform", t.clone());
     }
     r
 }
@@ -122,20 +153,39 @@ fn inline_xml(k: usize, i: &Inst) -> XEl {
         e
     };
     let at = |mut e: XEl| -> XEl {
-        if let Some((x, y)) = i.xy {
+        if let Some((d, gap)) = i.rel {
+            e.set("xy", format!("#base|{} {}", DIRS[d as usize % 4], num(gap)));
+        } else if let Some((x, y)) = i.xy {
             e.set("xy", format!("{} {}", num(x), num(y)));
+        }
+        if let Some(t) = &i.xf {
+            e.set("transform", t.clone());
         }
         e
     };
+    // a group is placed by a translation, applied after (written to the right of) the instance's own transform
     let group_at = |mut g: XEl| -> XEl {
+        let mut parts: Vec<String> = Vec::new();
+        if let Some(t) = &i.xf {
+            parts.push(t.clone());
+        }
         if let Some((x, y)) = i.xy {
             if x != 0.0 || y != 0.0 {
-                g.set("transform", format!("translate({}, {})", num(x), num(y)));
+                parts.push(format!("translate({}, {})", num(x), num(y)));
             }
+        }
+        if !parts.is_empty() {
+            g.set("transform", parts.join(" "));
         }
         g
     };
-    match i.tpl % 6 {
+    let fixed_group = || XEl::new("g").kid(XEl::new("rect").a("wh", "6 2")).kid(XEl::new("circle").a("cx", "6").a("cy", "1").a("r", "1"));
+    match i.tpl % 11 {
+        6 => deco(at(XEl::new("rect").a("wh", "4 2")), "", "fr"),
+        7 => deco(at(XEl::new("circle").a("r", "2")), "", "fc"),
+        8 => deco(at(XEl::new("ellipse").a("rx", "3").a("ry", "1")), "", "fe"),
+        9 => deco(group_at(fixed_group()), "", "fg"),
+        10 => deco(group_at(XEl::new("g").kid(XEl::new("rect").a("width", "6").a("height", "2")).kid(XEl::new("circle").a("cx", "6").a("cy", "1").a("r", "1"))), "", "tf"),
         0 => deco(at(XEl::new("rect").a("wh", format!("{} {}", num(i.w), num(i.h))).a("text", i.label.clone())), "base", "tr"),
         1 => deco(at(XEl::new("circle").a("r", num(i.w))), &i.cls, "tc"),
         2 => deco(
@@ -172,9 +222,11 @@ fn inline_xml(k: usize, i: &Inst) -> XEl {
 pub fn docs(c: &Case) -> (String, String) {
     let mk = |by_hand: bool| -> String {
         let mut kids: Vec<X> = Vec::new();
-        let uses_inline = c.insts.iter().any(|i| i.tpl % 6 == 5);
+        let uses_inline = c.insts.iter().any(|i| i.tpl % 11 == 5);
+        kids.push(X::El(defs_template()));
+        kids.push(X::El(XEl::new("rect").a("id", "base").a("xy", "50 50").a("wh", "10 6")));
         if c.specs_at == 0 {
-            kids.push(X::El(templates()));
+            kids.push(X::El(fixed_templates(templates())));
         }
         if uses_inline && !c.inline_after {
             kids.extend(inline_template().into_iter().map(X::El));
@@ -185,7 +237,7 @@ pub fn docs(c: &Case) -> (String, String) {
         let n = c.insts.len();
         for (k, i) in c.insts.iter().enumerate() {
             if c.specs_at == 2 && k == n / 2 {
-                kids.push(X::El(templates()));
+                kids.push(X::El(fixed_templates(templates())));
             }
             // an unrelated element between instances: instances must not disturb it, nor it them
             kids.push(X::El(XEl::new("circle").a("cxy", format!("{} -20", k * 5)).a("r", "1")));
@@ -195,7 +247,7 @@ pub fn docs(c: &Case) -> (String, String) {
             kids.push(X::El(inline_template().remove(1)));
         }
         if c.specs_at == 1 || (c.specs_at == 2 && n / 2 >= n) {
-            kids.push(X::El(templates()));
+            kids.push(X::El(fixed_templates(templates())));
         }
         XEl { name: "svg".into(), attrs: vec![], kids }.to_xml()
     };
@@ -260,7 +312,7 @@ impl Property for C18 {
     fn judge(&self, case: &Case, _strict: bool) -> Verdict {
         let (with_reuse, by_hand) = docs(case);
         let cfg = Cfg::plain();
-        let nested = case.insts.iter().any(|i| i.tpl % 6 == 4);
+        let nested = case.insts.iter().any(|i| i.tpl % 11 == 4);
         let distinct_bindings = case.insts.len() >= 2 && case.insts.windows(2).any(|w| w[0].w != w[1].w || w[0].label != w[1].label);
         let labels: Vec<String> = case.insts.iter().map(|i| format!("tpl:{}", tpl_id(i.tpl))).collect::<std::collections::BTreeSet<_>>().into_iter().collect();
         match (transform(&with_reuse, &cfg), transform(&by_hand, &cfg)) {
